@@ -249,6 +249,11 @@ func (o *c17Origin) handler(w http.ResponseWriter, r *http.Request) {
 		b := o.dl[r.URL.Query().Get("id")]
 		chunked := r.URL.Query().Get("chunked") == "1"
 		o.mu.Unlock()
+		if ct := q.Get("ct"); ct == "none" {
+			w.Header()["Content-Type"] = nil // no Content-Type at all (net/http would sniff one)
+		} else if ct != "" {
+			w.Header().Set("Content-Type", ct)
+		}
 		if enc := r.URL.Query().Get("enc"); enc != "" {
 			// the body goes out compressed: what is on the wire is c17Encode(enc, b)
 			b = c17Encode(enc, b)
